@@ -91,6 +91,19 @@ def task_C01(tier, seed, arg):
                "with table=T (isotope tags, natural-density tag, single-element default density), each twice", False)
     _aliasing(R, ["H2O", "CaCO3(H2O)6", "CaCO3 + 6H2O", "Na{+}Cl{-}", "(Na{+}Cl{-})2", "2Na{+}Cl{-} 3H2O", "D2O", "(H2O)2(D2O)3",
                   "C3H4H[1]3NO2", "Fe{3+}2O{2-}3", "5g NaCl // 50mL H2O@1", "50 wt% Co // Ti"], "C01")
+    # strings of white space denote the empty formula, for every caller and however earlier results were used
+    for blank in ("", " ", "  ", "\t", " \n "):
+        R.ok(1, ("blank", blank))
+        f = formula(blank)
+        f.density = 3.0
+        f.name = "edited"
+        f += formula("H2O")
+        g = formula(blank)
+        if g is f or g.atoms != {} or g.density is not None or g.name:
+            R.violation("C01:blank_string_shared_result:%r" % blank, "formula(%r) hands every caller the same object: after one caller edited its result "
+                        "(density, name, +=) the next parse of the blank string is no longer the empty formula" % blank,
+                        {"string": blank}, {"atoms": _atoms_names(g.atoms), "density": g.density, "name": g.name, "same_object": g is f},
+                        {"atoms": {}, "density": None, "name": None, "same_object": False})
     name = "stateful_c01_%d" % random.Random(seed).randrange(10 ** 9)
     T = core.PeriodicTable(name)
     try:
